@@ -126,7 +126,7 @@ func ruleC08Finish(cx *Ctx) {
 			if cc == nil || cc.IsInvoke() || cc.StaticCallee() != nil {
 				return
 			}
-			if root := rootOf(cc.Value); root == ssa.Value(fn.Params[4]) {
+			if root := rootOf(cc.Value); root == ssa.Value(bparam(fn, 4)) {
 				finishCalls++
 				if lb[in.Block()] {
 					inLoop = true
@@ -144,7 +144,7 @@ func ruleC08Finish(cx *Ctx) {
 			if cc == nil || cc.IsInvoke() || cc.StaticCallee() != nil {
 				return
 			}
-			if rootOf(cc.Value) != ssa.Value(fn.Params[4]) {
+			if rootOf(cc.Value) != ssa.Value(bparam(fn, 4)) {
 				return
 			}
 			for _, g := range guardsAt(in.Block()) {
@@ -176,6 +176,75 @@ func ruleC08Finish(cx *Ctx) {
 			a.check(kind+": finished exactly once", fin == 1 && !o.Panic, "the record is finished exactly once and the panic is converted into an error", fmt.Sprintf("%d finish call(s), panics=%v", fin, o.Panic), o)
 		}
 		a.flush()
+	}
+}
+
+// finisherTarget resolves the finish callback handed to doCall/doBulkCall: a bound method value, or a closure that does
+// nothing but forward its record to one function (returned), "" otherwise.
+func finisherTarget(v ssa.Value) *ssa.Function {
+	if bm := boundMethod(v); bm != nil {
+		return origin(bm)
+	}
+	cl := closureOf(v)
+	if cl == nil || len(cl.Params) != 1 {
+		return nil
+	}
+	var target *ssa.Function
+	n := 0
+	ok := true
+	allInstrs(cl, func(in ssa.Instruction) {
+		switch x := in.(type) {
+		case *ssa.Call:
+			n++
+			c := calleeOf(x)
+			a := callArgs(x)
+			if c == nil || len(a) != 1 || a[0] != ssa.Value(cl.Params[0]) {
+				ok = false
+				return
+			}
+			target = origin(c)
+		case *ssa.Return, *ssa.UnOp, *ssa.FieldAddr, *ssa.DebugRef:
+		default:
+			ok = false
+		}
+	})
+	if !ok || n != 1 {
+		return nil
+	}
+	return target
+}
+
+// ruleC10Finisher: the finish step analysed by C10.table is the only finish step in use.
+func ruleC10Finisher(cx *Ctx) {
+	const rule = "C10.finisher"
+	cx.R.Rule(rule, 2, "every dispatch (doCall / doBulkCall call site) hands over cache.afterDeleteCall as its finish callback - the bound method or a closure that only forwards its record to it; afterDeleteCall is the step whose table effect, clock sample and hooks C10.table / C12.hook decide, and it is called from nowhere else")
+	adc := cx.need(rule, "", "cache", "afterDeleteCall")
+	doCall := cx.need(rule, "", "group", "doCall")
+	doBulk := cx.need(rule, "", "group", "doBulkCall")
+	if adc == nil || doCall == nil || doBulk == nil {
+		return
+	}
+	for _, fn := range cx.P.ModuleFuncs() {
+		n := 0
+		allInstrs(fn, func(in ssa.Instruction) {
+			if isCallTo(in, doCall) || isCallTo(in, doBulk) {
+				n++
+				a := callArgs(in)
+				t := finisherTarget(a[len(a)-1])
+				cx.R.Check(t != nil && t == origin(adc), rule, funcName(fn), fmt.Sprintf("finish callback #%d", n), cx.P.where(in), "the finish callback of this dispatch is cache.afterDeleteCall")
+				return
+			}
+			// direct calls of the finish step outside a forwarding closure
+			if isCallTo(in, adc) {
+				fwd := false
+				if fn.Parent() != nil && len(fn.Params) == 1 {
+					if a := callArgs(in); len(a) == 1 && a[0] == ssa.Value(fn.Params[0]) {
+						fwd = true
+					}
+				}
+				cx.R.Check(fwd, rule, funcName(fn), "direct call of afterDeleteCall", cx.P.where(in), "afterDeleteCall runs only as the finish callback of a dispatch")
+			}
+		})
 	}
 }
 
